@@ -37,18 +37,20 @@ META = {
                   "the PreviewTree accessors, the node-level effect of apply) + correspondence on random op "
                   "sequences against real 2a working trees (preview listing vs tree after apply, raw conflict "
                   "sets, resolver outcomes)"),
-    "level_text": ("partial (P-core); the property is false of the code in several ways. Proved for every base "
-                   "tree and transform state: without overwrite conflicts and outside the replaced-directory "
-                   "situation (executable guard late_failure) every trans id the preview shows with contents is, "
-                   "after the node-level model of apply, a node of the same kind inside the node of its final "
-                   "parent under its final name; the inventory entries written by _generate_inventory_delta are "
-                   "the entries the preview shows; a new versioned file is previewed with the installed contents. "
-                   "Machine-checked refutations (each reproduced on the real code): preview content/exec of moved "
-                   "unmodified files, apply failing after a clean conflict check, resolve_conflicts raising "
-                   "KeyError/ValueError. The resolve loop runs at most 10 passes, a clean result has no raw "
-                   "conflicts, MalformedTransform only after all passes, and the tree is not touched; four "
-                   "resolvers provably remove their conflict. Path rendering, untouched inventory entries and "
-                   "the rename sequence of apply are tied only by the correspondence run (disk phase: C13)."),
+    "level_text": ("partial (P-core). Proved for every base tree and transform state (code as of the repair "
+                   "round): every trans id the preview shows as a file is shown with exactly the contents and "
+                   "executable bit of the node apply leaves for it (no hypotheses); without overwrite conflicts "
+                   "and outside the replaced-directory situation (executable guard late_failure) that node has "
+                   "the previewed kind and sits in the node of its final parent under its final name; the "
+                   "inventory entries written by _generate_inventory_delta are the entries the preview shows. "
+                   "Machine-checked refutations of what is still false (each reproduced on the real code and a "
+                   "known finding): apply failing after a clean conflict check (replaced directory), "
+                   "resolve_conflicts raising KeyError/DuplicateKey/RecursionError. The old preview behaviour "
+                   "(content/exec looked up at the new path in the old tree) is kept as a refuted statement about "
+                   "an _old definition. The resolve loop runs at most 10 passes, a clean result has no raw "
+                   "conflicts, MalformedTransform only after all passes, the tree is not touched; four resolvers "
+                   "provably remove their conflict. Path rendering, untouched inventory entries and the rename "
+                   "sequence of apply are tied only by the correspondence run (disk phase: C13)."),
     "level_note": ("Trusted: Coq kernel, vm_compute, the hand model's correspondence (bounded sampling), the "
                    "environment model of apply_inventory_delta."),
     "design_ref": "DESIGN.md §5 C14",
@@ -123,6 +125,8 @@ def _unfid(b):
         return 0
     if b.startswith(b"f") and b[1:].isdigit():
         return int(b[1:]) + 1
+    if b in _state.get("gen", {}):
+        return _state["gen"][b] + 1          # fabricated id (gen_file_id): 1000 + trans id
     raise ValueError("unexpected file id %r" % (b,))
 
 
@@ -162,15 +166,23 @@ def _row(path, kind, ex, fid, content):
 
 
 def _ambiguous(pt, tt, path):
-    """PreviewTree._path2trans_id takes the first child with the right name out of a set: when several
-    children (dead ones included) carry the name the answer depends on the set's iteration order."""
+    """PreviewTree._path2trans_id takes the first live child with the right name out of a set (a dead one
+    only when nothing else matches): with several candidates the answer depends on the set's iteration
+    order (unobservable among dead candidates of the last segment)."""
     cur = tt.root
-    for seg in (path.split("/") if path else []):
+    segs = path.split("/") if path else []
+    for i, seg in enumerate(segs):
         m = [c for c in pt._all_children(cur) if tt.final_name(c) == seg]
-        if len(m) > 1:
+        live = [c for c in m if not (tt.final_kind(c) is None and not tt.final_is_versioned(c))]
+        if len(live) > 1:
             return True
+        if len(live) == 1:
+            cur = live[0]
+            continue
         if not m:
             return False
+        if len(m) > 1:
+            return i < len(segs) - 1
         cur = m[0]
     return False
 
@@ -217,10 +229,7 @@ def _preview_listing(tt, fmt):
         if fmt == "bzr":
             fid = pt.path2id(path)
         else:
-            try:
-                fid = b"f0" if pt.is_versioned(path) else None
-            except AttributeError:
-                fid = b"f999"        # GitPreviewTree.is_versioned(new unversioned path) raises (finding)
+            fid = b"f0" if pt.is_versioned(path) else None
             if kind == "directory":
                 fid = None           # git does not version directories
         content = []
@@ -229,12 +238,7 @@ def _preview_listing(tt, fmt):
                 content = list(pt.get_file_text(path))
             except Exception:
                 content = [-2]
-        ex = 0
-        if kind == "file":
-            try:
-                ex = 1 if pt.is_executable(path) else 0
-            except NotADirectoryError:
-                ex = 2
+        ex = 1 if kind == "file" and pt.is_executable(path) else 0
         if kind is None and fid is None:
             continue
         rows[path] = _row(path, KIND[kind], ex, _unfid(fid), content)
@@ -352,6 +356,8 @@ def impl(inp):
                 wt2 = wt.controldir.open_workingtree()
                 after = _disk_listing(where, wt2, fmt)
                 return [Tag("ok"), raw0, status, Tag("untouched" if after == base_listing else "CHANGED")]
+            _state["gen"] = {f: 1000 + int(t[4:]) for t, f in getattr(tt, "_new_id", {}).items()
+                             if not (f.startswith(b"f") and f[1:].isdigit())}
             raw1 = sorted(_conflict_row(c) for c in tt.find_raw_conflicts())
             try:
                 preview = _preview_listing(tt, fmt)
@@ -735,12 +741,12 @@ B0 = [[0, "a", "f", "A", True, 1], [0, "d", "d", "", False, 2], [2, "x", "f", "X
 
 def corpus():
     ops = [
-        [["adjust", "b2", 2, 1]],                                            # rename (finding: content/exec)
-        [["adjust", "b", 0, 1], ["adjust", "a", 0, 5]],                      # swap (finding)
+        [["adjust", "b2", 2, 1]],                                            # rename: repaired 2ecf5bb, must pass
+        [["adjust", "b", 0, 1], ["adjust", "a", 0, 5]],                      # swap: repaired 2ecf5bb, must pass
         [["delete", 2], ["create_dir", 2]],                                  # replaced directory (finding)
         [["new_dir", "p", 0, 10], ["new_dir", "q", 6, 11], ["adjust", "p", 7, 6]],   # KeyError (finding)
         [["adjust", "d2", 2, 2]],
-        [["new_dir", "p", 0, None], ["new_file", "f", 6, "F", 12, None]],    # ValueError (finding)
+        [["new_dir", "p", 0, None], ["new_file", "f", 6, "F", 12, None]],    # was ValueError: repaired 4df7934, must pass
         [["new_file", "a", 0, "N", 13, None]],
         [["delete", 2]],
         [["new_file", "k", 1, "K", 14, None]],
@@ -748,7 +754,7 @@ def corpus():
         [["new_file", "n", 0, "N", 1, None]],
         [["exec", True, 4]],
         [["delete", 1], ["unversion", 1]],
-        [["new_file", "w", 0, "W", None, None]],                             # unversioned new file (finding)
+        [["new_file", "w", 0, "W", None, None]],                             # unversioned new file: repaired 2ecf5bb, must pass
         [["unversion", 4]],                                                  # NoSuchFile (finding)
         [["new_file", "w", 0, "W", 16, True]],
         [["delete", 1], ["create_file", "A2", 1]],
@@ -764,10 +770,12 @@ def corpus():
         [["adjust", "k", 1, 5], ["delete", 5]],       # deleted but versioned, below a file (finding)
         [["version", 5, 30]],                         # re-versioning (finding)
         [["new_file", "x", 2, "N", 19, None], ["unversion", 6]],   # unversion of a new id (finding)
+        [["unversion", 1], ["delete", 1], ["new_file", "a", 0, "MV", 1, None]],   # path lookup: repaired 33f6199
+        [["new_dir", "p", 0, None], ["new_dir", "q", 6, 11], ["adjust", "p", 7, 6]],   # RecursionError (finding)
     ]
     out = [{"base": B0, "ops": o} for o in ops]
     out.append({"base": B0, "ops": [["new_dir", "n", 0, None], ["new_file", "f", 6, "F", 21, None]], "fmt": "git"})
-    out.append({"base": B0, "ops": [["new_file", "w", 0, "W", None, None]], "fmt": "git"})   # is_versioned (git finding)
+    out.append({"base": B0, "ops": [["new_file", "w", 0, "W", None, None]], "fmt": "git"})   # is_versioned: repaired 027384d, must pass
     out.append({"base": B0, "ops": [["new_file", "k", 0, "K", 14, None], ["new_file", "c", 6, "C", 15, None]]})  # DuplicateKey
     out.append({"base": [[0, "e", "f", "E1", True, 1], [0, "a", "d", "", False, 2]],
                 "ops": [["new_dir", "a", 0, 2]], "fmt": "git"})     # duplicate directories (git finding)
@@ -816,8 +824,6 @@ def oracle(inp, obs):
         return f"apply of a conflict-free transform raised {astatus}"
     if isinstance(preview, Err):
         return f"preview tree raised {preview}"
-    if any(r[r.index(-1) + 3] == 1000 for r in preview if r[-1] != -3):
-        return "GitPreviewTree.is_versioned raised AttributeError"
     if inp.get("fmt", "bzr") != "bzr":
         return None      # git: directory versioning and extras() differ by design; listings not compared
     if any(r[-1] == -3 for r in preview):
@@ -859,8 +865,6 @@ def _dead_versioned(inp):
 
 def finding_matches(fid, inp, obs, why):
     nbase = len(inp["base"])
-    if fid == "C14-preview-content-exec":
-        return why.startswith("preview differs from the applied tree in content/exec only")
     if fid == "C14-replaced-directory":
         dirs = {i + 1 for i, b in enumerate(inp["base"]) if b[2] == "d"
                 and any(c[0] == i + 1 for c in inp["base"])}
@@ -872,9 +876,9 @@ def finding_matches(fid, inp, obs, why):
     if fid == "C14-git-duplicate-dirs-keyerror":
         return (why.startswith("resolve_conflicts raised KeyError") and inp.get("fmt") == "git"
                 and any(r[0] == 3 for r in obs[1]))
-    if fid == "C14-resolve-valueerror":
-        return (why.startswith("resolve_conflicts raised ValueError")
-                and (bool(_created(inp)) or any(b[5] is None for b in inp["base"])))
+    if fid == "C14-resolve-recursionerror":
+        return (why.startswith("resolve_conflicts raised RecursionError")
+                and any(r[0] == 2 for r in obs[1]) and any(r[0] == 1 for r in obs[1]))
     if fid == "C14-resolve-duplicatekey":
         return (why.startswith("resolve_conflicts raised DuplicateKey")
                 and any(r[0] in (1, 5, 10) for r in obs[1]))
@@ -888,10 +892,6 @@ def finding_matches(fid, inp, obs, why):
         return ((why.startswith("apply of a conflict-free transform raised InconsistentDelta")
                  or why.startswith("preview differs from the applied tree (paths"))
                 and not _reversion(inp) and _dead_versioned(inp))
-    if fid == "C14-git-preview-is-versioned":
-        return why.startswith("GitPreviewTree.is_versioned raised AttributeError") and inp.get("fmt") == "git"
-    if fid == "C14-preview-path-lookup":
-        return why.startswith("preview path lookup is ambiguous")
     if fid == "C14-unversion-unversioned":
         return (why.startswith("find_raw_conflicts raised NoSuchFile")
                 and any(o[0] == "unversion" and 1 <= o[1] <= nbase and inp["base"][o[1] - 1][5] is None
@@ -950,7 +950,8 @@ def shrink(inp, fails):
     return dict(inp, ops=ops)
 
 
-FINDINGS = ["C14-preview-content-exec", "C14-preview-path-lookup", "C14-replaced-directory",
-            "C14-resolve-keyerror", "C14-resolve-valueerror", "C14-resolve-duplicatekey",
-            "C14-unversion-unversioned", "C14-unversion-new-id", "C14-reversion", "C14-dead-versioned-child",
-            "C14-git-preview-is-versioned", "C14-git-duplicate-dirs-keyerror"]
+FINDINGS = ["C14-replaced-directory", "C14-resolve-keyerror", "C14-resolve-duplicatekey",
+            "C14-resolve-recursionerror", "C14-unversion-unversioned", "C14-unversion-new-id", "C14-reversion",
+            "C14-dead-versioned-child", "C14-git-duplicate-dirs-keyerror"]
+FIXED = ["C14-preview-content-exec", "C14-preview-path-lookup", "C14-resolve-valueerror",
+         "C14-git-preview-is-versioned"]       # repaired in /repo (2ecf5bb 33f6199 4df7934 027384d)
